@@ -5,8 +5,8 @@ C13 helper lemmas, part 5: consumers, laziness and pull order.
   as the early-exit fold over the list `xs` (for every fuel larger than the length).
 * call counting: `pullN c m s` is "m consecutive `next` calls" (final state, all events). The lemmas
   say exactly how many calls an adaptor makes on its input: `take k` makes `min m k` calls for `m`
-  calls on itself — never more than `k` —, `each`/`enumerate` make one call per call, `step n` makes
-  `n`, `zip` asks `a` before `b` and does not ask `b` when `a` is exhausted.
+  calls on itself — never more than `k` —, `each`/`enumerate` make one call per call, the lazy `step`
+  makes the pending skips plus one (`step_next_eq`), `zip` asks `a` before `b` and does not ask `b` when `a` is exhausted.
 * pull order of the logging sources.
 -/
 import KotoVerif.Lemmas.C13Refine
@@ -150,27 +150,37 @@ theorem enumerate_calls (c : Co) : ∀ (m : Nat) (s : c.σ) (i : Nat),
     congr 1
     omega
 
-/-- `step n` (`n ≥ 1`): exactly `n` calls on the input per call, with exactly their events -/
-theorem step_calls (n : Nat) (hn : n ≥ 1) (c : Co) : ∀ (m : Nat) (s : c.σ),
-    pullN (stepCo n c) m s = pullN c (m * n) s := by
-  intro m
-  induction m with
-  | zero => intro s; simp only [Nat.zero_mul, pullN]; rfl
-  | succ m ih =>
-    intro s
-    obtain ⟨k, rfl⟩ : ∃ k, n = k + 1 := ⟨n - 1, by omega⟩
-    have h1 : (m + 1) * (k + 1) = (k + 1) + m * (k + 1) := by
-      rw [Nat.succ_mul]; omega
-    have e : (stepCo (k + 1) c).next s =
-        ⟨(c.next s).out, (pullN c k (c.next s).st).1, (c.next s).ev ++ (pullN c k (c.next s).st).2⟩ := by
-      simp [stepCo]
-    rw [h1, pullN_add]
-    simp only [pullN]
-    rw [e]
-    simp only
-    rw [ih]
-    simp
-    rfl
+/-- `step n`, first call (nothing pending): exactly one call on the input, exactly its events -/
+theorem step_first_call (n : Nat) (c : Co) (s : c.σ) :
+    (stepCo n c).next (s, 0) =
+      ⟨(c.next s).out, ((c.next s).st, if (c.next s).out.isSome then n - 1 else 0), (c.next s).ev⟩ := by
+  simp [stepCo, advance]
+  rfl
+
+/-- `Iterator::nth(k)` when the `k` skips all succeed: exactly `k + 1` consecutive calls -/
+theorem nth_eq_pullN (c : Co) : ∀ (k : Nat) (s : c.σ), (advance c k s).1 = true →
+    (nth c k s).st = (pullN c (k + 1) s).1 ∧ (nth c k s).ev = (pullN c (k + 1) s).2 := by
+  intro k
+  induction k with
+  | zero => intro s _; simp [nth, advance, pullN]
+  | succ k ih =>
+    intro s hok
+    cases ho : (c.next s).out with
+    | none => simp [advance, ho] at hok
+    | some v =>
+      have hadv : advance c (k + 1) s = ((advance c k (c.next s).st).1, (advance c k (c.next s).st).2.1,
+          (c.next s).ev ++ (advance c k (c.next s).st).2.2) := by simp [advance, ho]
+      have hok' : (advance c k (c.next s).st).1 = true := by rw [hadv] at hok; exact hok
+      have ⟨i1, i2⟩ := ih (c.next s).st hok'
+      have hn : nth c (k + 1) s = ⟨(nth c k (c.next s).st).out, (nth c k (c.next s).st).st,
+          (c.next s).ev ++ (nth c k (c.next s).st).ev⟩ := by
+        simp only [nth, hadv]
+        cases (advance c k (c.next s).st).1 <;> simp
+      rw [hn]
+      have hp : pullN c (k + 1 + 1) s = ((pullN c (k + 1) (c.next s).st).1,
+          (c.next s).ev ++ (pullN c (k + 1) (c.next s).st).2) := rfl
+      rw [hp]
+      exact ⟨i1, by rw [i2]⟩
 
 /-- `zip`: `a` is asked first; `b` is asked only if `a` produced a value -/
 theorem zip_order (a b : Co) (sa : a.σ) (sb : b.σ) :
